@@ -70,7 +70,11 @@ func driveFCall(c *Ctx) error {
 				return cty.StringVal("r"), nil
 			}
 			if asB(sj["rr"]) {
-				spec.RefineResult = func(b *cty.RefinementBuilder) *cty.RefinementBuilder { return b.NotNull() }
+				if k, _ := sj["rrk"].(string); k == "null" {
+					spec.RefineResult = func(b *cty.RefinementBuilder) *cty.RefinementBuilder { return b.Null() }
+				} else {
+					spec.RefineResult = func(b *cty.RefinementBuilder) *cty.RefinementBuilder { return b.NotNull() }
+				}
 			}
 			f := function.New(spec)
 			call := f.Call
